@@ -98,6 +98,16 @@ Definition check_mhistory_opt (cs : nat * Z * Z * list (mop * option snap)) : bo
   let '(f, hs) := mstart_from empty_fs n mb bk in
   mfollow_opt (MOk f hs) l.
 
+(* configuration -> handler parameters: defaults, configured values (None: not
+   configured), observed handler (rotating?, maxBytes, backupCount) *)
+Definition check_config (cs : Z * option Z * Z * option Z * bool * Z * Z) : bool :=
+  let '(dmb, cmb, dbk, cbk, rot, omb, obk) := cs in
+  let mb := effective dmb cmb in
+  let bk := effective dbk cbk in
+  let h := snd (handle_file empty_fs mb bk) in
+  Bool.eqb (h_rotating h) rot &&
+  (if rot then (h_maxbytes h =? omb) && (h_backups h =? obk) else true).
+
 (* compact notation for the case files *)
 Definition W := Write.
 Definition C := Clear.
